@@ -40,6 +40,19 @@ def strategy(draw):
                 wtype=draw(gen.choice(["float64", "list", "int64", "int32-large", "uint16", "float64", "float32"]))))
 
 
+BIG = {"quick": 16, "thorough": 160}
+
+
+@st.composite
+def strategy_big(draw):
+    """Dense arrays: 15 .. 150 sensors (nodal deployments) and Monte-Carlo runs with 20 .. 400 generators."""
+    case = draw(strategy())
+    case["layout"]["n"] = draw(st.one_of(st.integers(15, 150), st.sampled_from([16, 25, 36, 64, 100, 144])))
+    case["mc"]["m"] = draw(st.integers(20, 400))
+    case["big"] = True
+    return case
+
+
 def expand_layout(L):
     g = np.random.Generator(np.random.PCG64(L["seed"]))
     n, E = L["n"], L["extent"]
@@ -294,7 +307,7 @@ def check_mc(hv, M, labels):
 
 def check_case(case):
     import hvsrpy as hv
-    labels = []
+    labels = ["big-%d0-sensors" % (case["layout"]["n"] // 10)] if case.get("big") else []
     nt1 = check_layout(hv, case["layout"], labels)
     nt2 = check_mc(hv, case["mc"], labels)
     return dict(labels=labels, nontrivial=bool(nt1 or nt2))
